@@ -11,7 +11,13 @@ open GoDebian GoDebian.Deb822 GoDebian.Spec.Deb822 GoDebian.Lemmas.Deb822ReadLin
 
 /-! ### the grammar of line contents -/
 
-def Trail (t : Bytes) : Prop := t = [] ∨ t = [32] ∨ t = [9]
+/-- the white space `Spec.Deb822.trailing` may put at the end of a line: nothing, blank,
+    tab, two blanks, U+00A0, U+0085, U+2003, U+2028, U+3000 (UTF-8), VT, FF -/
+def trailAlts : List Bytes :=
+  [[], [32], [9], [32, 32], [194, 160], [194, 133], [226, 128, 131], [226, 128, 168],
+   [227, 128, 128], [11], [12]]
+
+def Trail (t : Bytes) : Prop := t ∈ trailAlts
 def Pad (p : Bytes) : Prop := p = [32] ∨ p = [] ∨ p = [32, 32] ∨ p = [9]
 
 /-- a comment line -/
@@ -81,7 +87,7 @@ theorem eol_spec (cs : Choices) : Eol (eol cs).1 := by
 theorem trailing_spec (cs : Choices) : Trail (trailing cs).1 := by
   unfold trailing Trail
   simp only
-  split <;> simp
+  split <;> decide
 
 theorem pad_spec (cs : Choices) : Pad (padAfterColon cs).1 := by
   unfold padAfterColon Pad
@@ -201,7 +207,8 @@ theorem body_clean {x : Bytes} (h10 : 10 ∉ x) (h13 : 13 ∉ x) :
   split <;> simp [h10, h13]
 
 theorem trail_clean {t : Bytes} (h : Trail t) : 10 ∉ t ∧ 13 ∉ t := by
-  rcases h with h | h | h <;> subst h <;> decide
+  have : ∀ t ∈ trailAlts, 10 ∉ t ∧ 13 ∉ t := by decide
+  exact this t h
 
 theorem pad_clean {t : Bytes} (h : Pad t) : 10 ∉ t ∧ 13 ∉ t := by
   rcases h with h | h | h | h <;> subst h <;> decide
